@@ -62,8 +62,8 @@ CHECKS = {
     "C11": ("whole*", "4 C11",
             "typestate (clean -> dirty) abstract interpretation over every path of user-action and primitive constructors with inlined callees",
             "Decides that no explicit raise/assert, opaque raising callee or modelled graph lookup on an unvalidated id is reachable after "
-            "the first state change, and that registration/notification come last. Six families of genuine defects are listed as known "
-            "findings (12 keys). *Exceptions outside the modelled families are not decided."),
+            "the first state change (with an inductive step over loops on caller-supplied lists), and that registration/notification come last. Seven families of genuine defects are listed as known "
+            "findings (13 keys). *Exceptions outside the modelled families are not decided."),
     "C12": ("part", "4 C12",
             "CFG dominance and must-pass-through (validation before construction, uniqueness before renumbering, each structural validator), error-discipline check of validator verdicts, id-truthiness lint",
             "Decides the rejection half: malformed sources cannot reach construction, no validator verdict is dropped, renumbering uses one "
